@@ -9,7 +9,10 @@ Lemma C08_facts_ok :
   (* the load path allocates fixed-size buffers, one map per shard sized by that shard's vertex count, one vector of the
      index dimension per vertex and key / value buffers of the 8- / 16-bit lengths just read: memory is proportional to
      what Save wrote *)
-  load_allocations_bounded = Known true.
+  load_allocations_bounded = Known true /\
+  (* the gate of every write path bounds entry count, key and value length by the widths Save writes them with: the
+     reachable states are the well-formed snapshot values of the theorem below *)
+  metadata_bounds_match_codec = Known true.
 Proof. repeat split; reflexivity. Qed.
 
 (* Round trip: for every snapshot value within the field widths of the format (wf_snap: <= 65535 metadata pairs,
